@@ -384,8 +384,23 @@ def verify_contract(c, contracts, cfg=None):
     # every clause of the contract must have been exercised on at least one path (zero-obligation guard)
     expected = [f"post:{cl.label}" for cl in c.returns_]
     missing = [l for l in expected if l not in agg]
+    # combined hash of everything whose text determines these obligations: the function and the callees inlined into it
+    import hashlib
+    comb = hashlib.sha256((sha or "").encode())
+    try:
+        it1 = Interp(world, [], contracts)
+        for name in sorted(stats["inlined"]):
+            rel, qn = name.split(":", 1)
+            if rel.startswith("contracts/"):
+                continue
+            try:
+                comb.update(it1.get_func(rel, qn).source_sha256.encode())
+            except Exception:
+                comb.update(name.encode())
+    except Exception:
+        pass
     res = {
-        "function": c.func, "file": c.file, "where": where, "source_sha256": sha, "properties": c.props,
+        "function": c.func, "file": c.file, "where": where, "source_sha256": sha, "combined_sha256": comb.hexdigest(), "properties": c.props,
         "paths": paths, "outcomes": outcomes, "obligations": agg, "out_of_reach": sorted(set(oos)),
         "missing_obligations": missing, "vacuous": vacuous, "error": error,
         "inlined": sorted(stats["inlined"]), "stubs": sorted(stats["stubs"]), "assumptions": sorted(stats["assumptions"]),
